@@ -32,8 +32,16 @@ var zzValidStatements = []string{
 	"sink(mu(2));",
 	"leaf(mu(1));",
 	"const_assert 2 > 1;",
+	"const_assert (1 + 1) > 1;",
+	"const_assert(2 > 1);",
+	";",
+	"var zx: i32; let zp: ptr<function, i32>= &zx; *zp = 1;",
 	"let zq = vec3<i32>(1, 2, 3).xz;",
 	"let zq = vec4<f32>(1.0).rgba;",
+	"let zq = vec4<i32>(1, 2, 3, 4).xyz.x;",
+	"let zq = vec4<i32>(1, 2, 3, 4).wzyx.xy;",
+	"var zv = vec4<i32>(1, 2, 3, 4); let zq = zv.xyz[1];",
+	"var zv = vec3<f32>(1.0); zv.y = zv.zyx.z;",
 	"let zq = 4 / 2;",
 	"let zq = 5 % 3;",
 	"let zq = zarr[1];",
